@@ -339,6 +339,18 @@ def r18_5(run):
     run.ob('R18.5', cs, cs.node, 'a port that is added is saved to Tor', ok, slot='append-then-save', message='SocksPort.append not followed by save() on every path')
     okg = all(any(lab == 'F' for _, lab in g.guarded_by(a, lambda t: isinstance(t, ast.Call) and dotted(t.func) == 'any')) for a in app) if app else False
     run.ob('R18.5', cs, cs.node, 'a port is added only when no existing entry matches', okg, slot='append-guard', message='SocksPort.append not guarded by the match test')
+    # ... and nothing is sent to Tor when the port is already there: in both "use or add" entry points every save() lies behind
+    # the same no-entry-matches test as the append (an unconditional save() pushes whatever else is pending in the TorConfig -
+    # an earlier refused port, a staged removal - although the requested listener exists)
+    for u_, recv in ((cs, 'self'), (ag, ag.params[1])):
+        gu = cfg_of(u_)
+        sv_ = gu.nodes_where(lambda n: any(isinstance(a, ast.Call) and callee_attr(a) == 'save' and dotted(receiver(a)) == recv for a in node_asts(n)))
+        run.floor('R18.5', 'save() sites in %s' % u_.name, len(sv_), 1)
+        for n in sv_:
+            gd = gu.guarded_by(n, lambda t: isinstance(t, ast.Call) and dotted(t.func) == 'any')
+            run.ob('R18.5', u_, n.ast, 'Tor is reconfigured only when no existing entry matches', any(lab == 'F' for _, lab in gd), slot='save-only-when-adding:%s' % u_.name,
+                   message='%s calls save() also when the requested port is already configured: pending edits of the TorConfig (a port Tor refused earlier, a staged '
+                           'removal) are sent although nothing needed adding' % u_.short)
     el = run.idx.unit('torconfig._endpoint_from_socksport_line')
     ok = any(isinstance(n, ast.Call) and callee_attr(n) == 'split' for n in walk_unit(el)) and \
         any(isinstance(n, ast.Call) and dotted(n.func) == 'UNIXClientEndpoint' for n in walk_unit(el)) and any(isinstance(n, ast.Call) and dotted(n.func) == 'TCP4ClientEndpoint' for n in walk_unit(el))
@@ -448,6 +460,7 @@ RULES = [
 from ..selftest import M  # noqa: E402
 F, FC = 'txtorcon/endpoints.py', 'txtorcon/torconfig.py'
 MUTANTS = [
+    M('agent-saves-always', 'txtorcon/web.py', "        torconfig.SocksPort.append(socks_config)\n        try:\n            yield torconfig.save()\n        except Exception as e:\n            raise RuntimeError(\n                \"Failed to reconfigure Tor with SOCKS port '{}': {}\".format(\n                    socks_config, str(e)\n                )\n            )\n", "        torconfig.SocksPort.append(socks_config)\n    try:\n        yield torconfig.save()\n    except Exception as e:\n        raise RuntimeError(str(e))\n", ['R18.5']),
     M('ports-read-before-bootstrap', FC, "        yield self.post_bootstrap\n\n        if socks_config is None:", "        if socks_config is None:", ['R18.6']),
     M('default-endpoint-guard-negated', 'txtorcon/controller.py', "        if self._socks_endpoint is None:\n            self._socks_endpoint = yield _create_socks_endpoint", "        if self._socks_endpoint is not None:\n            self._socks_endpoint = yield _create_socks_endpoint", ['R18.7']),
     M('default-endpoint-not-returned', 'txtorcon/controller.py', "            self._socks_endpoint = yield _create_socks_endpoint(self._reactor, self._protocol)\n        return self._socks_endpoint", "            self._socks_endpoint = yield _create_socks_endpoint(self._reactor, self._protocol)\n        return None", ['R18.7']),
